@@ -13,9 +13,9 @@ package chk
 // Both are source-to-source edits checked by re-type-checking the result; when that fails the original text is analysed.
 
 import (
-	"go/constant"
 	"fmt"
 	"go/ast"
+	"go/constant"
 	"go/token"
 	"go/types"
 	"sort"
@@ -71,6 +71,7 @@ func planCanon(p *Prog, stdlib, methods bool) canonPlan {
 			}
 			var decls []string
 			keep := map[string]bool{}
+			keepPkg := map[string]string{}        // import name -> a member that stays referenced (keeps the import used)
 			extraImports := map[string]string{}   // confirmed: used by an emitted helper
 			pendingImports := map[string]string{} // seen while rendering the types of the helper being considered
 			qualOK := true
@@ -386,6 +387,29 @@ func planCanon(p *Prog, stdlib, methods bool) canonPlan {
 					}
 					return false
 				case *ast.BinaryExpr:
+					// F(X) == C for a function of this module that is `if COND(p) { return C1 }; return C2` (constants):
+					// the comparison is COND(X), its negation, or a constant - read off the function's body as it is now
+					if x.Op == token.EQL || x.Op == token.NEQ {
+						if txt, ok := twoValuedCompare(p, in, info, x); ok && free(x.Pos(), x.End()) {
+							fe := in.file(x.Pos())
+							fe.edits = append(fe.edits, textEdit{start: in.off(x.Pos()), end: in.off(x.End()), text: txt})
+							taken = append(taken, [2]token.Pos{x.Pos(), x.End()})
+							for _, side := range []ast.Expr{x.X, x.Y} {
+								ast.Inspect(side, func(m ast.Node) bool {
+									if se, isSel := m.(*ast.SelectorExpr); isSel {
+										if id, isId := se.X.(*ast.Ident); isId {
+											if _, isPkg := info.Uses[id].(*types.PkgName); isPkg {
+												keepPkg[id.Name] = se.Sel.Name
+											}
+										}
+									}
+									return true
+								})
+							}
+							plan.expanded = append(plan.expanded, "two-valued function compared with a constant")
+							return false
+						}
+					}
 					// cmp.Compare(A, B) OP 0 is A OP B for integers and strings (strings.Compare likewise)
 					call, isCall := ast.Unparen(x.X).(*ast.CallExpr)
 					if !isCall || len(call.Args) != 2 || !free(x.Pos(), x.End()) {
@@ -803,6 +827,196 @@ func planCanon(p *Prog, stdlib, methods bool) canonPlan {
 				}
 				return true
 			})
+			// a local struct that is only ever used field by field (x.f) is that many separate locals
+			{
+				type cand struct {
+					obj   *types.Var
+					decl  ast.Node // *ast.AssignStmt or *ast.DeclStmt
+					lit   *ast.CompositeLit
+					st    *types.Struct
+					uses  []*ast.SelectorExpr
+					bad   bool
+					nameN string
+				}
+				cands := map[*types.Var]*cand{}
+				var order []*cand
+				ast.Inspect(file, func(n ast.Node) bool {
+					switch x := n.(type) {
+					case *ast.AssignStmt:
+						if x.Tok != token.DEFINE || len(x.Lhs) != 1 || len(x.Rhs) != 1 {
+							return true
+						}
+						id, isId := x.Lhs[0].(*ast.Ident)
+						lit, isLit := ast.Unparen(x.Rhs[0]).(*ast.CompositeLit)
+						if !isId || !isLit || id.Name == "_" {
+							return true
+						}
+						v, _ := info.Defs[id].(*types.Var)
+						if v == nil {
+							return true
+						}
+						st, isSt := v.Type().Underlying().(*types.Struct)
+						if !isSt || st.NumFields() == 0 || st.NumFields() > 12 {
+							return true
+						}
+						if _, isBlk := p.parents[x].(*ast.BlockStmt); !isBlk {
+							return true
+						}
+						c := &cand{obj: v, decl: x, lit: lit, st: st, nameN: id.Name}
+						cands[v] = c
+						order = append(order, c)
+					case *ast.DeclStmt:
+						gd, isGd := x.Decl.(*ast.GenDecl)
+						if !isGd || gd.Tok != token.VAR || len(gd.Specs) != 1 {
+							return true
+						}
+						vs := gd.Specs[0].(*ast.ValueSpec)
+						if len(vs.Names) != 1 || len(vs.Values) != 0 || vs.Names[0].Name == "_" {
+							return true
+						}
+						v, _ := info.Defs[vs.Names[0]].(*types.Var)
+						if v == nil {
+							return true
+						}
+						st, isSt := v.Type().Underlying().(*types.Struct)
+						if !isSt || st.NumFields() == 0 || st.NumFields() > 12 {
+							return true
+						}
+						if _, isBlk := p.parents[x].(*ast.BlockStmt); !isBlk {
+							return true
+						}
+						c := &cand{obj: v, decl: x, st: st, nameN: vs.Names[0].Name}
+						cands[v] = c
+						order = append(order, c)
+					}
+					return true
+				})
+				if len(cands) > 0 {
+					ast.Inspect(file, func(n ast.Node) bool {
+						id, isId := n.(*ast.Ident)
+						if !isId {
+							return true
+						}
+						v, _ := info.Uses[id].(*types.Var)
+						c := cands[v]
+						if c == nil {
+							return true
+						}
+						sel, isSel := p.parents[id].(*ast.SelectorExpr)
+						if !isSel || sel.X != ast.Expr(id) {
+							c.bad = true
+							return true
+						}
+						seln := info.Selections[sel]
+						if seln == nil || seln.Kind() != types.FieldVal || len(seln.Index()) != 1 {
+							c.bad = true
+							return true
+						}
+						c.uses = append(c.uses, sel)
+						return true
+					})
+				}
+				for _, c := range order {
+					if c.bad || !free(c.decl.Pos(), c.decl.End()) {
+						continue
+					}
+					okc := true
+					for _, u := range c.uses {
+						if !free(u.Pos(), u.End()) {
+							okc = false
+						}
+					}
+					// initial values by field
+					inits := make([]string, c.st.NumFields())
+					if c.lit != nil {
+						for i, el := range c.lit.Elts {
+							if kv, isKV := el.(*ast.KeyValueExpr); isKV {
+								kid, isId := kv.Key.(*ast.Ident)
+								if !isId || !callFree(kv.Value) {
+									okc = false
+									break
+								}
+								found := false
+								for j := 0; j < c.st.NumFields(); j++ {
+									if c.st.Field(j).Name() == kid.Name {
+										inits[j] = in.text(kv.Value.Pos(), kv.Value.End())
+										found = true
+									}
+								}
+								if !found {
+									okc = false
+								}
+							} else {
+								if i >= c.st.NumFields() || !callFree(el) {
+									okc = false
+									break
+								}
+								inits[i] = in.text(el.Pos(), el.End())
+							}
+						}
+					}
+					if !okc {
+						continue
+					}
+					scope := pkg.Types.Scope().Innermost(c.decl.Pos())
+					names := make([]string, c.st.NumFields())
+					var sb strings.Builder
+					for k := range pendingImports {
+						delete(pendingImports, k)
+					}
+					for j := 0; j < c.st.NumFields(); j++ {
+						fld := c.st.Field(j)
+						if fld.Embedded() {
+							okc = false
+							break
+						}
+						nm := c.nameN + "_" + fld.Name()
+						if scope != nil {
+							if _, o := scope.LookupParent(nm, token.NoPos); o != nil {
+								ctr++
+								nm = fmt.Sprintf("mlbS%d_%s", ctr, nm)
+							}
+						}
+						names[j] = nm
+						tt, okT := typeText(fld.Type(), c.decl.Pos())
+						if !okT || len(pendingImports) > 0 {
+							okc = false
+							break
+						}
+						if inits[j] != "" {
+							sb.WriteString("var " + nm + " " + tt + " = " + inits[j] + "\n")
+						} else {
+							sb.WriteString("var " + nm + " " + tt + "\n")
+						}
+						sb.WriteString("_ = " + nm + "\n")
+					}
+					if !okc {
+						continue
+					}
+					fe := in.file(c.decl.Pos())
+					fe.edits = append(fe.edits, textEdit{start: in.off(c.decl.Pos()), end: in.off(c.decl.End()), text: sb.String()})
+					taken = append(taken, [2]token.Pos{c.decl.Pos(), c.decl.End()})
+					for _, u := range c.uses {
+						idx := info.Selections[u].Index()[0]
+						fe.edits = append(fe.edits, textEdit{start: in.off(u.Pos()), end: in.off(u.End()), text: names[idx]})
+						taken = append(taken, [2]token.Pos{u.Pos(), u.End()})
+					}
+					plan.expanded = append(plan.expanded, "local struct "+c.nameN+" split into its fields")
+				}
+			}
+			if len(keepPkg) > 0 {
+				fe := in.file(file.Pos())
+				var ks []string
+				for k := range keepPkg {
+					ks = append(ks, k)
+				}
+				sort.Strings(ks)
+				tail := "\n"
+				for _, k := range ks {
+					tail += "var _ = " + k + "." + keepPkg[k] + "\n"
+				}
+				fe.edits = append(fe.edits, textEdit{start: len(fe.src), end: len(fe.src), text: tail})
+			}
 			if len(decls) > 0 || len(keep) > 0 {
 				fe := in.file(file.Pos())
 				tail := "\n"
@@ -1409,4 +1623,119 @@ func planParamObjects(p *Prog, in *inliner, plan *canonPlan) {
 			}
 		}
 	}
+}
+
+// twoValuedCompare: be is `F(X) == C` / `!=` (either order) with F a plain function of the module whose body is
+// `if COND { return C1 }; return C2` over its single parameter, C, C1, C2 constants and X a plain operand. It returns the
+// condition the comparison amounts to, spelt over X.
+func twoValuedCompare(p *Prog, in *inliner, info *types.Info, be *ast.BinaryExpr) (string, bool) {
+	callE, constE := ast.Unparen(be.X), ast.Unparen(be.Y)
+	call, isCall := callE.(*ast.CallExpr)
+	if !isCall {
+		callE, constE = constE, callE
+		call, isCall = callE.(*ast.CallExpr)
+	}
+	if !isCall || len(call.Args) != 1 || !isPlainOperand(call.Args[0]) {
+		return "", false
+	}
+	ctv, has := info.Types[constE]
+	if !has || ctv.Value == nil {
+		return "", false
+	}
+	var fid *ast.Ident
+	switch f := ast.Unparen(call.Fun).(type) {
+	case *ast.Ident:
+		fid = f
+	case *ast.SelectorExpr:
+		if id, isId := f.X.(*ast.Ident); isId {
+			if _, isPkg := info.Uses[id].(*types.PkgName); isPkg {
+				fid = f.Sel
+			}
+		}
+	}
+	if fid == nil {
+		return "", false
+	}
+	fo, _ := info.Uses[fid].(*types.Func)
+	fn := p.FnOf(fo)
+	if fn == nil || fn.Decl == nil || fn.Decl.Recv != nil || fn.Decl.Type.TypeParams != nil || fn.Body == nil || len(fn.Body.List) != 2 {
+		return "", false
+	}
+	pv := fn.Param(0)
+	if pv == nil || fn.Param(1) != nil {
+		return "", false
+	}
+	ifs, isIf := fn.Body.List[0].(*ast.IfStmt)
+	ret2, isRet := fn.Body.List[1].(*ast.ReturnStmt)
+	if !isIf || !isRet || ifs.Init != nil || ifs.Else != nil || len(ifs.Body.List) != 1 || len(ret2.Results) != 1 {
+		return "", false
+	}
+	ret1, isRet1 := ifs.Body.List[0].(*ast.ReturnStmt)
+	if !isRet1 || len(ret1.Results) != 1 {
+		return "", false
+	}
+	finfo := fn.Info()
+	v1, ok1 := finfo.Types[ret1.Results[0]]
+	v2, ok2 := finfo.Types[ret2.Results[0]]
+	if !ok1 || !ok2 || v1.Value == nil || v2.Value == nil || constant.Compare(v1.Value, token.EQL, v2.Value) {
+		return "", false
+	}
+	// the condition reads only the parameter (through selectors / method calls) and nil
+	okCond := true
+	var uses []*ast.Ident
+	ast.Inspect(ifs.Cond, func(m ast.Node) bool {
+		switch y := m.(type) {
+		case *ast.SelectorExpr:
+			ast.Inspect(y.X, func(k ast.Node) bool {
+				if id, isId := k.(*ast.Ident); isId {
+					if finfo.Uses[id] == types.Object(pv) {
+						uses = append(uses, id)
+					} else if _, isNil := finfo.Uses[id].(*types.Nil); !isNil {
+						okCond = false
+					}
+				}
+				return true
+			})
+			return false
+		case *ast.Ident:
+			if finfo.Uses[y] == types.Object(pv) {
+				uses = append(uses, y)
+			} else if _, isNil := finfo.Uses[y].(*types.Nil); !isNil {
+				okCond = false
+			}
+		case *ast.FuncLit:
+			okCond = false
+		}
+		return okCond
+	})
+	if !okCond || len(uses) == 0 {
+		return "", false
+	}
+	arg := "(" + in.text(call.Args[0].Pos(), call.Args[0].End()) + ")"
+	if _, isId := ast.Unparen(call.Args[0]).(*ast.Ident); isId {
+		arg = in.text(call.Args[0].Pos(), call.Args[0].End())
+	}
+	var sb strings.Builder
+	pos := ifs.Cond.Pos()
+	for _, u := range uses {
+		sb.WriteString(in.text(pos, u.Pos()))
+		sb.WriteString(arg)
+		pos = u.End()
+	}
+	sb.WriteString(in.text(pos, ifs.Cond.End()))
+	cond := "(" + sb.String() + ")"
+	eq := be.Op == token.EQL
+	switch {
+	case constant.Compare(ctv.Value, token.EQL, v1.Value):
+		if eq {
+			return cond, true
+		}
+		return "(!" + cond + ")", true
+	case constant.Compare(ctv.Value, token.EQL, v2.Value):
+		if eq {
+			return "(!" + cond + ")", true
+		}
+		return cond, true
+	}
+	return "", false
 }
